@@ -4,6 +4,7 @@ import (
 	"bytes"
 	"context"
 	"encoding/json"
+	"errors"
 	"fmt"
 	"io"
 	"net/http"
@@ -99,4 +100,57 @@ func (c *earlyClient) Do(req *http.Request) (*http.Response, error) {
 		_ = req.Body.Close()
 	}
 	return c.build(), nil
+}
+
+// failedFirstSendHandler: a server-stream handler whose first Send fails in the codec (nothing is
+// written) and which then ends with an error of its own (data_loss, "after the failed send",
+// metadata X-E: e1) — returned, or raised as a panic that the recovery function (installed
+// when panics is set; *recoveries counts its calls) converts into that error.
+func failedFirstSendHandler(panics bool, recoveries *int) *connect.Handler {
+	final := func() *connect.Error {
+		e := connect.NewError(connect.CodeDataLoss, errors.New("after the failed send"))
+		e.Meta().Set("X-E", "e1")
+		return e
+	}
+	hopts := []connect.HandlerOption{connect.WithCodec(h.ToyCodec{})}
+	if panics {
+		hopts = append(hopts, connect.WithRecover(func(context.Context, connect.Spec, http.Header, any) error {
+			*recoveries++
+			return final()
+		}))
+	}
+	return connect.NewServerStreamHandler("/verif.Svc/M", func(_ context.Context, _ *connect.Request[h.Raw], st *connect.ServerStream[h.Raw]) error {
+		if err := st.Send(&h.Raw{B: []byte{0xEE, 0xEE, 0xEE}}); err != nil { // (the toy codec refuses this payload)
+			if panics {
+				panic(err)
+			}
+			return final()
+		}
+		return nil
+	}, hopts...)
+}
+
+// failedFirstSendCall makes the call through a real client over the in-process transport.
+func failedFirstSendCall(proto string, panics bool) (clientErr error, recoveries int, panicked any) {
+	mux := http.NewServeMux()
+	mux.Handle("/verif.Svc/M", failedFirstSendHandler(panics, &recoveries))
+	copts := []connect.ClientOption{connect.WithCodec(h.ToyCodec{})}
+	switch proto {
+	case "grpc":
+		copts = append(copts, connect.WithGRPC())
+	case "grpcweb":
+		copts = append(copts, connect.WithGRPCWeb())
+	}
+	panicked = safely(func() {
+		st, err := connect.NewClient[h.Raw, h.Raw](&h.LocalClient{Handler: mux}, "http://verif.local/verif.Svc/M", copts...).CallServerStream(context.Background(), connect.NewRequest(&h.Raw{B: []byte("q")}))
+		if err != nil {
+			clientErr = err
+			return
+		}
+		for st.Receive() {
+		}
+		clientErr = st.Err()
+		_ = st.Close()
+	})
+	return
 }
